@@ -1074,17 +1074,20 @@ func (w *RouteWorld) registryChecks() {
 			}
 		}
 	}
-	// The end-to-end clause is judged with the shipped queue capacity only: with a 1-4 slot
-	// acknowledgement queue (a knob of the simulator) a source-stream break can leave a target
-	// stream's ack loop blocked for good on the ended receiver's full queue - see DESIGN.md,
-	// "observations outside the claimed clauses".
-	if !w.tailOK && w.cfg.QueueCap >= 100 {
+	if !w.tailOK {
 		sig := ""
 		for _, sh := range w.allShards() {
 			for _, kind := range []string{"shard", "send", "ack"} {
 				if s := w.staleRegisteredLate(sh, kind); s != "" {
 					sig = s
 				}
+			}
+		}
+		// a target stream's ack loop sits in DeliverAckToShardOwner, blocked on the full queue of a
+		// source receiver that has ended (it only selects on its own shutdown signal)
+		for _, lt := range w.s.LiveTasks() {
+			if strings.Contains(lt, "@DeliverAckToShardOwner[blocked]") {
+				sig = "ack-hand-off-blocked-on-ended-receiver"
 			}
 		}
 		w.violateSig("C08", "traffic-does-not-flow", sig, "after the churn stopped, %v of fault-free fair execution did not bring every source an acknowledgement of its final high watermark through the newest incarnations: %s; live tasks: %v", w.s.Now()-w.tailStart, w.tailStatus(), w.s.LiveTasks())
